@@ -26,7 +26,7 @@ CHECKS = {
     technique="Coq proof (size-cap decision and framing of the writer model) + differential correspondence on bytes captured from a live endpoint",
     design="§2 C05"),
  "C02": dict(
-    text="Partial. Client -> server is a theorem: C02_client_request_parses_back and C02_client_request_fields (for every method of the regenerated table, path, query pairs, cookies, application headers, Host value and body that need no escaping - the exact character conditions are the wf_* predicates - the request parser model run on what the client serialiser model writes ends Done exactly at the last byte with the same method, resource, version, query pairs, cookies, raw headers in order and body; first-occurrence-wins collections, C02_distinct_keys_keep_all for pairwise different keys). Server -> client is a theorem for fixed-length responses: C02_server_response_fields (every status code, application headers, Set-Cookie values the cookie parser reads, body: the response parser model run on what putOnWire writes ends Done at the last byte with the same status, cookies, headers, body). Streamed (chunked) responses are not composed with the parser's chunk loop (C05_stream_decodes uses an independent reader); they, and the tie of both models to the code, are decided by the live correspondence check (requests built with the client builder are captured from the socket, compared with the serialiser model and parsed by the real server parser; responses from a live endpoint are read back). Uses C01 (segmentation independence) and the value round trips C16-C18.",
+    text="Full on the models, tied to the code by correspondence. Client -> server is a theorem: C02_client_request_parses_back and C02_client_request_fields (for every method of the regenerated table, path, query pairs, cookies, application headers, Host value and body that need no escaping - the exact character conditions are the wf_* predicates - the request parser model run on what the client serialiser model writes ends Done exactly at the last byte with the same method, resource, version, query pairs, cookies, raw headers in order and body; first-occurrence-wins collections, C02_distinct_keys_keep_all for pairwise different keys). Server -> client is a theorem for fixed-length responses: C02_server_response_fields (every status code, application headers, Set-Cookie values the cookie parser reads, body: the response parser model run on what putOnWire writes ends Done at the last byte with the same status, cookies, headers, body). Streamed responses: C02_stream_response_body (every sequence of non-empty chunks written through the response stream is parsed by the response parser model's own chunk loop to the concatenation of the chunks, Done at the last byte). The tie of the serialiser and parser models to the code is the live correspondence check (requests built with the client builder are captured from the socket, compared with the serialiser model and parsed by the real server parser; responses from a live endpoint are read back). Uses C01 (segmentation independence) and the value round trips C16-C18.",
     note="Closed under the global context. The theorem is parametric in the typed-header parsers (typed_ok hypotheses for User-Agent and Host) and in Cookie::fromRaw. Trusted: harness/h_wire.cc (Q mode), tools/gen_tables.py.",
     technique="Coq proof (serialiser model composed with the parser model: parse (write request) = request, by automaton scanning lemmas) + differential correspondence on captured client requests and endpoint responses",
     design="§2 C02"),
